@@ -47,7 +47,7 @@ fn tokens_json(ts: &[HctlToken]) -> Value {
             HctlToken::Atom(Atomic::WildCardProp(n)) => json!({"k":"atom","t":"wild","name":n}),
             HctlToken::Atom(Atomic::True) => json!({"k":"atom","t":"const","name":"True"}),
             HctlToken::Atom(Atomic::False) => json!({"k":"atom","t":"const","name":"False"}),
-            HctlToken::Tokens(inner) => json!({"k":"grp","v":tokens_json(inner)}),
+            HctlToken::Tokens(inner) => json!({"k":"grp","g":tokens_json(inner)}),
         })
         .collect();
     json!(v)
